@@ -108,9 +108,17 @@ func prepare(prop, tier string, seed int) (*runCtx, error) {
 	rc.cs = cs
 	// packages that hold functions with clauses of this property
 	need := map[string]bool{}
+	serves := false
 	for _, ct := range cs.ByFunc {
 		if ct.Pkg != "" && contractServes(ct, prop) {
-			need["./"+strings.TrimPrefix(ct.Pkg, vc.RepoModule+"/")] = true
+			serves = true
+		}
+	}
+	if serves {
+		// every package that carries contracts is loaded, so that callees under contract in other packages are
+		// resolved the same way for every property
+		for _, f := range files {
+			need["./"+strings.TrimPrefix(pkgPathOfFile(repo, f), vc.RepoModule+"/")] = true
 		}
 	}
 	if len(need) > 0 {
